@@ -325,14 +325,22 @@ def run_program(calls, assign, split, version, dest, index):
     sessions = [list(range(nc))] if not split or nc < 2 else [list(range(split)), list(range(split, nc))]
     tmp = None
     try:
-        if dest == 'path':
+        if dest in ('path', 'path-stale'):
             tmp = H.scratch('verif_c07_')
             path = os.path.join(tmp, 'f.tdms')
+            if dest == 'path-stale':
+                # the path already holds a file and its index from an earlier run; this run first re-creates the file (mode 'w')
+                # without writing anything and then appends everything in a second session
+                from nptdms import RootObject, ChannelObject
+                with TdmsWriter(path, index_file=True) as w0:
+                    w0.write_segment([RootObject({'run': 1}), ChannelObject('old', 'zz', np.arange(50, dtype=np.int32), {'u': 'V'})])
+                    w0.write_segment([ChannelObject('old', 'zz', np.arange(7, dtype=np.int32))])
+                sessions = [[], list(range(nc))]
         else:
             stream = io.BytesIO()
             istream = io.BytesIO() if index else None
         for sidx, sess in enumerate(sessions):
-            if dest == 'path':
+            if dest in ('path', 'path-stale'):
                 w = TdmsWriter(path, mode='w' if sidx == 0 else 'a', version=version, index_file=bool(index))
             else:
                 w = TdmsWriter(stream, version=version, index_file=istream if index else False)
@@ -358,9 +366,9 @@ def run_program(calls, assign, split, version, dest, index):
                         # the caller catches the error and carries on: a rejected call must have no effect at all
                         models[-1] = []
                         rejected.append(ci)
-        if dest == 'path':
+        if dest in ('path', 'path-stale'):
             data = open(path, 'rb').read()
-            idx = open(path + '_index', 'rb').read() if index else None
+            idx = (open(path + '_index', 'rb').read() if os.path.exists(path + '_index') else b'<no index file>') if index else None
         else:
             data = stream.getvalue()
             idx = istream.getvalue() if index else None
